@@ -66,12 +66,12 @@ type caseSpec struct {
 	Handlers string     `json:"handlers"` // msg | both | frame
 	Frags    []fragSpec `json:"frags,omitempty"`
 	// compressed message: inflated size, content, level, number of fragments the compressed payload is split into
-	Inflated  int       `json:"inflated,omitempty"`
-	Content   string    `json:"content,omitempty"`
-	Level     int       `json:"level,omitempty"`
-	Split     int       `json:"split,omitempty"`
-	ReadLimit int       `json:"read_limit,omitempty"`
-	Chunk     int       `json:"chunk,omitempty"`
+	Inflated  int    `json:"inflated,omitempty"`
+	Content   string `json:"content,omitempty"`
+	Level     int    `json:"level,omitempty"`
+	Split     int    `json:"split,omitempty"`
+	ReadLimit int    `json:"read_limit,omitempty"`
+	Chunk     int    `json:"chunk,omitempty"`
 	// Build: construction path of the Conn (wsgen.Cfg.Build: "" = Upgrader engine is the serving
 	// engine, "rebind" = NewUpgrader() with DefaultEngine, Conn bound to the serving engine after
 	// its construction, as Upgrade / DialContext do). Ending: deflate-stream ending of the
@@ -717,7 +717,7 @@ func run(tier string, sh *vkit.Shard, p *vkit.Part) {
 				// (-2), fixed/dynamic Huffman with matches (1, 9); nbio's flate reader, a decompressor
 				// that returns the last bytes together with io.EOF, one that returns a byte per Read
 				infl, content := infl, content
-				item(fmt.Sprintf("inflate-endings L=%d inflated=%d %s", L, infl, content), func() {
+				{
 					type variant struct {
 						ending, decomp string
 						level          int
@@ -744,22 +744,31 @@ func run(tier string, sh *vkit.Shard, p *vkit.Part) {
 							vs = append(vs, variant{ending, decomp, 1})
 						}
 					}
+					// one work item per variant (thorough: every single cut of wires up to 2 KiB,
+					// structural cuts beyond - a stored-block wire is as long as the message)
+					vseg := lightSeg()
+					if thorough {
+						vseg = wsgen.SegOpt{AllSingleMax: 2048, BytesMax: 16384}
+					}
 					for _, v := range vs {
-						for _, server := range roles {
-							for _, pol := range policies {
-								for _, h := range []string{"msg", "both"} {
-									if !thorough && h == "both" && v.decomp == "" && v.level != 1 {
-										continue
-									}
-									for _, parts := range []int{1, 2} {
-										runBase(&caseSpec{Family: "inflate", L: L, Server: server, Policy: pol, Handlers: h, Inflated: infl, Content: content,
-											Level: v.level, Split: parts, Ending: v.ending, Decomp: v.decomp}, p, lightSeg())
+						v := v
+						item(fmt.Sprintf("inflate-endings L=%d inflated=%d %s ending=%s decomp=%s level=%d", L, infl, content, v.ending, v.decomp, v.level), func() {
+							for _, server := range roles {
+								for _, pol := range policies {
+									for _, h := range []string{"msg", "both"} {
+										if !thorough && h == "both" && v.decomp == "" && v.level != 1 {
+											continue
+										}
+										for _, parts := range []int{1, 2} {
+											runBase(&caseSpec{Family: "inflate", L: L, Server: server, Policy: pol, Handlers: h, Inflated: infl, Content: content,
+												Level: v.level, Split: parts, Ending: v.ending, Decomp: v.decomp}, p, vseg)
+										}
 									}
 								}
 							}
-						}
+						})
 					}
-				})
+				}
 			}
 		}
 		// ---- D: control frames of 125 / 126 bytes on receive (alone and inside a fragmented message)
